@@ -365,7 +365,7 @@ ADDED = {
  "C12": " Generators: RSA keys with every subset of CRT members and symmetric keys through the OpenSSL conversion (F31), NUL-containing member values, extras named like other types' members, non-hash algorithm names.",
  "C13": " Generators: invalid key material in every role and ECMR mode, key_ops shapes, kty spellings with explicit alg.",
  "C14": " Generators: PBES2 password as JSON string at the 1024 bound (wrap and unwrap), every ciphertext text length around the 256 KiB bound in both tiers, wrapped content keys within the bound unwrap again.",
- "C15": " pbes2_salt_not_shadowed / gcmkw_iv_tag_not_shadowed / ecdhes_epk_not_shadowed (F28). jwe_enc_applied_is_recorded is stated for an object-form protected header; the encoded form (accepted since F37) is covered by the correspondence. Generators: generated parameters supplied by the caller in each header, one call for several keys with one template (JWE and JWS), encoded protected header in content encryption, unknown / ill-typed protected zip.",
+ "C15": " pbes2_salt_not_shadowed / gcmkw_iv_tag_not_shadowed / ecdhes_epk_not_shadowed (F28). jwe_enc_applied_is_recorded now covers a protected header given as an object, absent, or already encoded (accepted since F37: an inferred enc then goes to the shared unprotected header, names_enc_after_set_str). Generators: generated parameters supplied by the caller in each header, one call for several keys with one template (JWE and JWS), encoded protected header in content encryption, unknown / ill-typed protected zip.",
  "C16": " Generators: direct key agreement / direct encryption as first and as later recipient in directed sequences (F32), the command-line tool adding signatures step by step in six input spellings.",
  "C17": " Generators: protected header as object and as every other JSON type, zip tokens, explicit recipients in the read-only battery.",
  "C18": " jwe_fmt_compact_aad_fails (F36). Generators: aad in jwe enc templates with and without -c, jwe fmt -c of tokens with aad.",
